@@ -3,10 +3,10 @@ package c06
 
 import (
 	"context"
-	"sync"
 	"fmt"
 	"sort"
 	"strings"
+	"sync"
 	"time"
 
 	"verif/fw"
@@ -100,6 +100,15 @@ func fmtListing(m map[string]api.TrackerStatus, idx map[string]int) string {
 
 func run(c *fw.Ctx, idx int) {
 	r := c.Rand("main")
+	// the first cases are the cluster-wide family (real multi-peer clusters)
+	nglobal := 8
+	if c.Thorough() {
+		nglobal = 64
+	}
+	if idx < nglobal {
+		globalCase(c, r, idx)
+		return
+	}
 	ctx := context.Background()
 	self, other := gen.Peer(0), gen.Peer(1)
 	rig := trk.New(self, 100, 2)
